@@ -265,7 +265,8 @@ def _dur_core(d):
 
 
 def _dur_extra(d):
-    return [repr(d), d.in_words(locale="en"), d.total_days().hex(), d.in_days(), d.in_hours(), d.in_weeks(), d.days, str(d.as_timedelta())]
+    # repr() is left out on purpose: it prints `days=` according to the private _days (see the report)
+    return [d.in_words(locale="en"), d.total_days().hex(), d.in_days(), d.in_hours(), d.in_weeks(), d.days, str(d.as_timedelta())]
 
 
 def _iv_core(i):
